@@ -149,3 +149,23 @@ T('C11', 'cache-module-kernel', 'convolution.py', "@jit(nopython=True, nogil=Tru
 T('C11', 'lru-cache-scalar-helper', 'convolution.py', "def _is_numeric(s):", "@lru_cache(maxsize=None)\ndef _is_numeric(s):",
   edits=[('xrspatial/convolution.py', "def _is_numeric(s):", "@lru_cache(maxsize=None)\ndef _is_numeric(s):"), ('xrspatial/convolution.py', "import re\n", "import re\nfrom functools import lru_cache\n")])
 T('C11', 'local-list-append', 'focal.py', "    out = agg.data.astype(float)\n", "    excl = list(excludes)\n    excl.append(0)\n    out = agg.data.astype(float)\n")
+
+# ------------------------------------------------------------------------------------------------ C10
+M('C10', 'mean-astype-nocopy', 'focal.py', "    out = agg.data.astype(float)\n", "    out = agg.data.astype(float, copy=False)\n", 'P2')
+M('C10', 'perlin-inplace-again', 'perlin.py', "    data = _perlin(p, x, y)\n    data = (data - np.min(data)) / np.ptp(data)\n    return data\n\n\ndef _perlin_dask_numpy", "    data[:] = _perlin(p, x, y)\n    data[:] = (data - np.min(data)) / np.ptp(data)\n    return data\n\n\ndef _perlin_dask_numpy", 'P1')
+M('C10', 'hotspots-attrs-shared', 'focal.py', "    attrs = copy.deepcopy(raster.attrs)\n    attrs['unit'] = '%'", "    attrs = raster.attrs\n    attrs['unit'] = '%'", 'P1')
+M('C10', 'slope-no-coords', 'slope.py', "    return xr.DataArray(out,\n                        name=name,\n                        coords=agg.coords,\n                        dims=agg.dims,\n                        attrs=agg.attrs)", "    return xr.DataArray(out,\n                        name=name,\n                        dims=agg.dims,\n                        attrs=agg.attrs)", 'P3')
+M('C10', 'regions-no-attrs', 'zonal.py', "        dims=raster.dims,\n        coords=raster.coords,\n        attrs=raster.attrs\n    )", "        dims=raster.dims,\n        coords=raster.coords,\n    )", 'P3', first=True)
+M('C10', 'regions-kernel-writes-input', 'zonal.py', "            val = data[y, x]\n", "            val = data[y, x]\n            data[y, x] = val\n", 'P1', first=True)
+T('C10', 'curvature-kernel-writes-copy', 'curvature.py', "            out[y, x] = -2 * (d + e) * 100 / (cellsize * cellsize)\n    return out", "            out[y, x] = -2 * (d + e) * 100 / (cellsize * cellsize)\n            data[y, x] = 0\n    return out")
+M('C10', 'slope-numpy-nocast-inplace', 'slope.py', "    out = _cpu(data, cellsize_x, cellsize_y)\n    return out", "    data -= data.min()\n    out = _cpu(data, cellsize_x, cellsize_y)\n    return out", 'P1')
+M('C10', 'binary-returns-input', 'classify.py', "    values = np.asarray(values)\n    out = _cpu_binary(data, values)\n    return out", "    values = np.asarray(values)\n    out = data\n    out[:] = _cpu_binary(data, values)\n    return out", 'P1')
+M('C10', 'astar-path-on-surface', 'pathfinding.py', "    path_img = np.zeros_like(surface, dtype=np.float64)", "    path_img = surface.data", 'P1')
+M('C10', 'ndvi-coords-of-other', 'multispectral.py', "                     coords=nir_agg.coords,\n                     dims=nir_agg.dims,\n                     attrs=nir_agg.attrs)", "                     coords=None,\n                     dims=nir_agg.dims,\n                     attrs=nir_agg.attrs)", 'P3', first=True)
+M('C10', 'proximity-name-store', 'proximity.py', "    proximity_img = _process(\n        raster,", "    raster.name = 'proximity_input'\n    proximity_img = _process(\n        raster,", 'P1')
+M('C10', 'zonal-stats-sort-inplace', 'zonal.py', "    flatten_zones = zones.ravel()\n", "    flatten_zones = zones.ravel()\n    flatten_zones.sort()\n", 'P1')
+M('C10', 'reclassify-attrs-edit', 'classify.py', "    out = _bin(agg, bins, new_values)\n", "    out = _bin(agg, bins, new_values)\n    agg.attrs['classified'] = True\n", 'P1')
+T('C10', 'mean-copy-then-astype', 'focal.py', "    out = agg.data.astype(float)\n", "    out = agg.data.copy().astype(float, copy=False)\n")
+T('C10', 'hotspots-dict-copy', 'focal.py', "    attrs = copy.deepcopy(raster.attrs)\n    attrs['unit'] = '%'", "    attrs = dict(raster.attrs)\n    attrs['unit'] = '%'")
+T('C10', 'slope-kwargs-reordered', 'slope.py', "    return xr.DataArray(out,\n                        name=name,\n                        coords=agg.coords,\n                        dims=agg.dims,\n                        attrs=agg.attrs)", "    result = xr.DataArray(out, attrs=agg.attrs, dims=agg.dims, coords=agg.coords, name=name)\n    return result")
+T('C10', 'kernel-local-scratch', 'curvature.py', "    out = np.empty(data.shape, np.float32)\n    out[:] = np.nan", "    out = np.empty(data.shape, np.float32)\n    tmp = np.zeros(3)\n    tmp[0] = 1\n    out[:] = np.nan")
